@@ -26,6 +26,7 @@ func init() {
 		Rule{ID: "R18d", Doc: "router close completeness; no panic/exit in run", Floor: 8, Run: r18d},
 		Rule{ID: "R18e", Doc: "late dial results are closed, not published", Floor: 4, Run: r18e},
 		Rule{ID: "R18g", Doc: "Close closes every registered connection", Floor: 2, Run: r18g},
+		Rule{ID: "R18h", Doc: "resources kept by a constructor have a closing owner", Floor: 8, Run: r18h},
 		Rule{ID: "R18f", Doc: "start-up does not panic on configuration content: bounds of every index/slice/precondition in the functions reachable only from configuration loading", Floor: 60, Run: r18f},
 	)
 }
@@ -281,7 +282,8 @@ func locallyIdempotent(m *ssa.Function) string {
 // idempotentLibCloses: close operations of dependencies that are documented/known idempotent.
 func idempotentLibClose(n string) bool {
 	switch n {
-	case "(*github.com/IrineSistiana/connpool.Pool).Close", // closed flag under mutex (connpool/pool.go)
+	case "(*net/http.Transport).CloseIdleConnections", // closes what is idle now; nothing else
+		"(*github.com/IrineSistiana/connpool.Pool).Close", // closed flag under mutex (connpool/pool.go)
 		"(github.com/maypok86/otter.CacheWithVariableTTL[string,*" + core.ModPath + "/internal/cache.cacheEntry]).Close",
 		"(context.CancelCauseFunc)", "(context.CancelFunc)":
 		return true
@@ -295,7 +297,9 @@ func idempotentLibClose(n string) bool {
 // idempotentLibType: dependency types whose Close is idempotent (read from their sources).
 func idempotentLibType(tn string) bool {
 	switch tn {
-	case "*github.com/quic-go/quic-go.Transport": // Transport.Close: guarded by t.closed under t.mutex (quic-go v0.42 transport.go)
+	case "*github.com/quic-go/quic-go.Transport", // Transport.Close: guarded by t.closed under t.mutex (quic-go v0.42 transport.go)
+		"*github.com/quic-go/quic-go/http3.RoundTripper", // Close: closes and forgets its clients under its mutex (http3/roundtrip.go)
+		"net.PacketConn", "*net.UDPConn": // a second Close returns net.ErrClosed and has no other effect
 		return true
 	}
 	return false
@@ -316,6 +320,47 @@ func delegatesOnly(c *core.Ctx, m *ssa.Function, idem map[*ssa.Function]string) 
 				// a closure of m: its body is included via bodyAndClosures
 			case idempotentLibClose(n):
 				parts = append(parts, core.ModName(n))
+			case isPureBuiltin(call):
+			case call.Common().IsInvoke() && isCloseName(call.Common().Method.Name()) && elementOfReceiver(call.Common().Value, m):
+				// Close of every element of a slice-typed receiver: the elements are whatever the module puts into
+				// literals converted to that type
+				vals, ok := sliceTypeElements(c, m.Signature.Recv().Type())
+				if !ok || len(vals) == 0 {
+					return ""
+				}
+				for _, v := range vals {
+					tn := core.TypeName(core.Strip(v).Type())
+					var impl *ssa.Function
+					for _, cm := range closeMethods(c) {
+						if cm.Name() == call.Common().Method.Name() && core.TypeName(cm.Signature.Recv().Type()) == tn {
+							impl = cm
+						}
+					}
+					switch {
+					case impl != nil && idem[impl] != "":
+						parts = append(parts, core.FuncName(impl))
+					case impl == nil && idempotentLibType(tn):
+						parts = append(parts, core.ModName(tn)+".Close")
+					default:
+						return ""
+					}
+				}
+			case !call.Common().IsInvoke() && callee == nil && len(m.Params) > 0 && call.Common().Value == ssa.Value(m.Params[0]):
+				// a func-typed receiver calling itself (closeFunc): the functions converted to that type in the module
+				fns, ok := funcTypeValues(c, m.Signature.Recv().Type())
+				if !ok || len(fns) == 0 {
+					return ""
+				}
+				for _, f2 := range fns {
+					for _, c2 := range core.Calls(f2) {
+						n2 := core.CallName(c2)
+						if idempotentLibClose(n2) || isPureBuiltin(c2) {
+							parts = append(parts, core.ModName(n2))
+							continue
+						}
+						return ""
+					}
+				}
 			case call.Common().IsInvoke() && isCloseName(call.Common().Method.Name()):
 				// interface Close: resolve the dynamic types that can reach this receiver; each must be idempotent
 				conc, open := c.DynValues(call.Common().Value)
@@ -324,6 +369,26 @@ func delegatesOnly(c *core.Ctx, m *ssa.Function, idem map[*ssa.Function]string) 
 				}
 				for _, v := range conc {
 					tn := core.TypeName(v.Type())
+					// a typed slice literal `T{a, b}` put into the interface: provenance ends at its backing array
+					if al, isAl := v.(*ssa.Alloc); isAl && al.Referrers() != nil {
+						for _, r := range *al.Referrers() {
+							if sl, isSl := r.(*ssa.Slice); isSl {
+								if _, named := sl.Type().(*types.Named); named {
+									tn = core.TypeName(sl.Type())
+								}
+							}
+						}
+					}
+					// a function literal converted to a named func type
+					if mc, isMC := v.(*ssa.MakeClosure); isMC && mc.Referrers() != nil {
+						for _, r := range *mc.Referrers() {
+							if ct, isCT := r.(*ssa.ChangeType); isCT {
+								if _, named := ct.Type().(*types.Named); named {
+									tn = core.TypeName(ct.Type())
+								}
+							}
+						}
+					}
 					var impl *ssa.Function
 					for _, cm := range closeMethods(c) {
 						if cm.Name() == call.Common().Method.Name() && core.TypeName(cm.Signature.Recv().Type()) == tn {
@@ -360,6 +425,102 @@ func delegatesOnly(c *core.Ctx, m *ssa.Function, idem map[*ssa.Function]string) 
 		return "no effects"
 	}
 	return "delegates only to idempotent closes: " + strings.Join(dedup(parts), ", ")
+}
+
+func isPureBuiltin(call ssa.CallInstruction) bool {
+	b, ok := call.Common().Value.(*ssa.Builtin)
+	return ok && (b.Name() == "len" || b.Name() == "cap")
+}
+
+// elementOfReceiver: v is an element loaded from the (slice-typed) receiver of m.
+func elementOfReceiver(v ssa.Value, m *ssa.Function) bool {
+	if len(m.Params) == 0 {
+		return false
+	}
+	for _, o := range core.Origins(v, core.OriginOpts{}) {
+		u, ok := o.(*ssa.UnOp)
+		if !ok {
+			return false
+		}
+		ia, ok := u.X.(*ssa.IndexAddr)
+		if !ok || core.Strip(ia.X) != ssa.Value(m.Params[0]) {
+			return false
+		}
+	}
+	return true
+}
+
+// sliceTypeElements: every value stored into the backing array of a literal that is converted to the named slice
+// type t anywhere in the module; ok=false if a value of type t is produced in any other way.
+func sliceTypeElements(c *core.Ctx, t types.Type) ([]ssa.Value, bool) {
+	var out []ssa.Value
+	ok := true
+	for _, fn := range c.SrcFuncs() {
+		core.EachInstr(fn, func(_ *ssa.BasicBlock, _ int, in ssa.Instruction) {
+			v, isV := in.(ssa.Value)
+			if !isV || v.Type() == nil {
+				return
+			}
+			if _, isNamed := v.Type().(*types.Named); !isNamed || !types.Identical(v.Type(), t) {
+				return
+			}
+			switch x := in.(type) {
+			case *ssa.ChangeType, *ssa.Slice:
+				var sl *ssa.Slice
+				if ct, isCT := x.(*ssa.ChangeType); isCT {
+					sl, _ = ct.X.(*ssa.Slice)
+				} else {
+					sl = x.(*ssa.Slice)
+				}
+				if sl == nil {
+					ok = false
+					return
+				}
+				arr, isArr := sl.X.(*ssa.Alloc)
+				if !isArr {
+					ok = false
+					return
+				}
+				for _, r := range *arr.Referrers() {
+					if ia, isIA := r.(*ssa.IndexAddr); isIA {
+						for _, rr := range *ia.Referrers() {
+							if st, isSt := rr.(*ssa.Store); isSt {
+								out = append(out, st.Val)
+							}
+						}
+					}
+				}
+			case *ssa.Phi, *ssa.UnOp, *ssa.Extract:
+				// copies of existing values
+			default:
+				ok = false
+			}
+		})
+	}
+	return out, ok
+}
+
+// funcTypeValues: the functions converted to the named func type t in the module.
+func funcTypeValues(c *core.Ctx, t types.Type) ([]*ssa.Function, bool) {
+	var out []*ssa.Function
+	ok := true
+	for _, fn := range c.SrcFuncs() {
+		core.EachInstr(fn, func(_ *ssa.BasicBlock, _ int, in ssa.Instruction) {
+			ct, isCT := in.(*ssa.ChangeType)
+			if !isCT || !types.Identical(ct.Type(), t) {
+				return
+			}
+			switch f := ct.X.(type) {
+			case *ssa.MakeClosure:
+				out = append(out, f.Fn.(*ssa.Function))
+			case *ssa.Function:
+				out = append(out, f)
+			default:
+				ok = false
+			}
+		})
+	}
+	return out, ok
 }
 
 // ---- R18b ----
